@@ -18,7 +18,8 @@ EXPLANATION = (
     "violation of the statement's 'or at least answers every query with the same chunks' clause once min_offset takes the "
     "minimum over all bins ending at or after the start (fix 42bd27d), so no identity-or-inverse rule is armed for it."
     " (R2, path form) in all six write_bins bodies no success exit is reachable once the absence edges of every test of `metadata` and the write_metadata call are removed: the pseudo-bin is written on every path on which metadata is present; (R6) reg2bin and reg2bins use the same coordinate convention (exactly one `- 1` on start and on end before the shifts); (R7) append-buffer discipline of the text index readers (crai, fai, tabix names): the rule that reports the genuine defect F14 (crai read_index), repaired in /repo."
-    " (R8) optimize_chunks prunes by a per-chunk test of that chunk's end, never by a prefix cut or binary search over chunk ends in a list ordered by start.")
+    " (R8) optimize_chunks prunes by a per-chunk test of that chunk's end, never by a prefix cut or binary search over chunk ends in a list ordered by start."
+    " (R9) Bin::add_chunk builds the merged chunk's end as the maximum of both ends (genuine defect F24, repaired).")
 ASSUMPTIONS = ["field layout (order and widths) of the index files is pinned by the unit tests (one literal per field encoder/decoder)"]
 NOT_DECIDED = ["reg2bin ∈ reg2bins containment and optimize_chunks coverage for every geometry (pure interval arithmetic)",
                "byte layout equality of writer and reader beyond the pairing clauses above",
@@ -161,6 +162,26 @@ def run(ctx):
             ctx.violation("C17.R8", "C17.R8/ANCHOR-MISSING/%s/filter" % fo.key, "optimize_chunks no longer filters chunks by their end", fo.loc())
         else:
             ctx.ok("C17.R8", fo.key + " :: per-chunk end test", "%d filter site(s), no prefix cut" % len(per), fo.loc())
+
+    ctx.rule("C17.R9", "merging never shrinks: Bin::add_chunk builds the merged chunk's end as the maximum of both chunks' ends")
+    fac = ctx.anchor("C17.R9", "noodles_csi::binning_index::index::reference_sequence::bin::Bin::add_chunk")
+    if fac is not None:
+        news = [c for b, c in fac.calls() if (c.get("f") or "").endswith("chunk::Chunk::new") and len(c["args"]) >= 2]
+        is_max = R.mk_pred(r"(cmp::Ord::max|core::cmp::max|Ord>::max)$")
+        is_end = R.mk_pred(r"chunk::Chunk::end$")
+        ok9 = False
+        for c in news:
+            mx = [cc for b, cc in fac.calls() if is_max(cc.get("f") or "") and R.derives_from_local(fac, c["args"][1], cc["dest"][0])]
+            if any(sum(1 for a_ in cc["args"] if R.derives_from_call(fac, a_, is_end)) >= 2 for cc in mx):
+                ok9 = True
+        if not news:
+            ctx.violation("C17.R9", "C17.R9/ANCHOR-MISSING/%s/Chunk::new" % fac.key, "add_chunk no longer builds a merged chunk", fac.loc())
+        elif ok9:
+            ctx.ok("C17.R9", fac.key + " :: merged end = max(last.end(), chunk.end())", "", fac.loc())
+        else:
+            ctx.violation("C17.R9", "C17.R9/merge-end-not-max/" + fac.key,
+                          "Bin::add_chunk builds the merged chunk without taking the maximum of the two ends: merging a nested chunk shrinks the "
+                          "stored chunk and uncovers a file range that was covered", fac.loc())
 
     ctx.rule("C17.R6", "A7 sibling agreement: reg2bin (indexing side) and reg2bins (query side) use the same coordinate convention")
     binning_convention_rule(ctx, "C17.R6")
